@@ -555,7 +555,7 @@ func c07FdBased() []c07Fail {
 // ---------- jobs ----------
 
 func c07Jobs(tier string) []string {
-	jobs := []string{"noise", "fdbased"}
+	jobs := []string{"noise", "fdbased", "accept"}
 	for i := 0; i < 16; i++ {
 		jobs = append(jobs, fmt.Sprintf("frag:%d/16", i))
 	}
@@ -749,6 +749,26 @@ func c07Run(job, tier string, deadline time.Time) *engine.Result {
 		r.Recycle = true // the dispatcher goroutine of the fd-based endpoint stays behind: do not reuse this worker
 		return r
 	}
+	if job == "accept" {
+		for backlog := 1; backlog <= 3; backlog++ {
+			for conns := 0; conns <= backlog+3; conns++ {
+				for _, op := range c07AcceptOps {
+					engine.Tick()
+					r.Execs++
+					r.Nontrivial++
+					r.Transitions += int64(2*conns + 2)
+					if m := c07AcceptOverflow(backlog, conns, op); m != "" {
+						r.Recycle = true
+						if len(r.Violations) < 3 {
+							r.Violations = append(r.Violations, engine.Violation{Property: "C07", Kind: "deadlock", Key: "accept-queue:" + keyOf(fmt.Errorf("%s", m[strings.Index(m, ": ")+2:])), Detail: m, Job: job, Replay: engine.MustJSON(map[string]interface{}{"job": job, "accept": []int{backlog, conns}, "op": op})})
+						}
+					}
+				}
+			}
+		}
+		r.Sample(map[string]interface{}{"accept": "backlog 1..3 x 0..backlog+3 handshakes completed by the raw peer x {close, shutdown, listen-again, accept-all-then-close, accept-one-then-close}: every call returns, a new listener works afterwards"})
+		return r
+	}
 	seqs, what := c07Seqs(job, tier)
 	if strings.HasPrefix(what, "harness:") {
 		r.Err = what
@@ -765,10 +785,18 @@ func c07Run(job, tier string, deadline time.Time) *engine.Result {
 
 func c07Replay(rp json.RawMessage) *engine.Violation {
 	var p struct {
-		Job string
-		Seq []c07Frame
+		Job    string
+		Seq    []c07Frame
+		Accept []int
+		Op     string
 	}
 	if json.Unmarshal(rp, &p) != nil {
+		return nil
+	}
+	if p.Job == "accept" && len(p.Accept) == 2 {
+		if m := c07AcceptOverflow(p.Accept[0], p.Accept[1], p.Op); m != "" {
+			return &engine.Violation{Property: "C07", Kind: "deadlock", Key: "accept-queue:" + keyOf(fmt.Errorf("%s", m[strings.Index(m, ": ")+2:])), Detail: m}
+		}
 		return nil
 	}
 	if p.Job == "fdbased" {
